@@ -36,6 +36,15 @@ structure Facts where
   evictKeepOne : Bool
   /-- form of `c.offset + c.data_len` in `highest_end_offset` -/
   edgeAdd : SumForm
+  /-- `request_resume`'s implicit ACK is guarded by `&& last_received_offset <= sent_offset` -/
+  resumeCap : Bool
+  /-- `wait_for_reconnect` tests `cancelled` before it takes the pending resume -/
+  reconnCancelFirst : Bool
+  /-- `advance_to_file` unconditionally sets `pending_resume = None` (anything else, e.g. a conditional
+  drop, is read pessimistically: the pending resume survives) -/
+  advanceDropsPending : Bool
+  /-- `advance_to_file` does not touch `cancelled` (if it mentions it, pessimistically: it clears it) -/
+  advanceKeepsCancel : Bool
   deriving DecidableEq, Repr
 
 structure Chunk where
@@ -122,6 +131,10 @@ def ackAdvances (f : Facts) (capped acked : Nat) : Bool :=
 /-- `u64::saturating_add` -/
 def satAdd (a b : Nat) : Nat := if a + b < U64 then a + b else U64 - 1
 
+/-- the guard of `request_resume`'s implicit ACK: `off > acked && off <= sent` (or without the cap) -/
+def resumeBumps (f : Facts) (off acked sent : Nat) : Bool :=
+  decide (off > acked) && (!f.resumeCap || decide (off ≤ sent))
+
 /-- The `debug_assert!` at the top of `ReplayRing::push` (dev profile only): the new chunk must abut
 the last one; the assertion's own `c.offset + c.data_len` is an unchecked add. `true` = passes. -/
 def pushAssertOk (m : OvMode) (chunks : List Chunk) (off : Nat) : Bool :=
@@ -168,7 +181,9 @@ def step (f : Facts) (m : OvMode) (s : State) (op : Op) : State × Ret :=
      | none => { s with cancelled := some r }
      | some _ => s, .unit)
   | .advance n =>
-    ({ s with file := n, sent := 0, acked := 0, chunks := [], bytesHeld := 0, pending := none }, .unit)
+    ({ s with file := n, sent := 0, acked := 0, chunks := [], bytesHeld := 0,
+              pending := if f.advanceDropsPending then none else s.pending,
+              cancelled := if f.advanceKeepsCancel then s.cancelled else none }, .unit)
   | .requestResume p file off =>
     match s.cancelled with
     | some _ => (s, .resumeCancelled)
@@ -177,7 +192,7 @@ def step (f : Facts) (m : OvMode) (s : State) (op : Op) : State × Ret :=
       else match covers f m s.chunks off with
         | .ok true =>
           let s1 := { s with peer := some p, pending := some off }
-          (if off > s.acked ∧ off ≤ s.sent then { s1 with acked := off } else s1, .resumeOk off)
+          (if resumeBumps f off s.acked s.sent then { s1 with acked := off } else s1, .resumeOk off)
         | .ok false => (s, .resumeOutOfWindow)
         | _ => poison s
   | .waitCredit len =>
@@ -189,12 +204,20 @@ def step (f : Facts) (m : OvMode) (s : State) (op : Op) : State × Ret :=
       | .ok false => (s, .creditTimeout)
       | _ => poison s
   | .waitReconnect =>
-    match s.cancelled with
-    | some r => (s, .reconnCancelled r)
-    | none =>
+    if f.reconnCancelFirst then
+      match s.cancelled with
+      | some r => (s, .reconnCancelled r)
+      | none =>
+        match s.pending with
+        | some o => ({ s with pending := none }, .reconnResume o)
+        | none => (s, .reconnTimeout)
+    else
       match s.pending with
       | some o => ({ s with pending := none }, .reconnResume o)
-      | none => (s, .reconnTimeout)
+      | none =>
+        match s.cancelled with
+        | some r => (s, .reconnCancelled r)
+        | none => (s, .reconnTimeout)
   | .pushReplay off dlen last body =>
     if pushAssertOk m s.chunks off then
       let (cs, held) := evict f s.capacity (s.chunks ++ [⟨off, dlen, last, body⟩]) (satAdd s.bytesHeld body.length)
@@ -202,6 +225,31 @@ def step (f : Facts) (m : OvMode) (s : State) (op : Op) : State × Ret :=
     else poison s
   | .replayFrom off => (s, .chunks (replayFrom s.chunks off))
   | .setPeer p => ({ s with peer := some p }, .unit)
+
+/-! ### idle watchdog (`spawn_watchdog` / `watchdog_loop`) and its inputs
+
+Time is not modelled: whether `now - max(last_chunk_at, last_ack_at) >= idle_timeout` holds at a tick is the
+environment's boolean `idle`. What *is* modelled is which calls refresh which of the two time stamps, and what
+a watchdog visit can do to a transfer. -/
+
+/-- `(refreshes last_chunk_at, refreshes last_ack_at)` of one call, given what it returned. -/
+def stampEffect : Op → Ret → Bool × Bool
+  | _, .panic => (false, false)
+  | .recordSent _, _ => (true, false)
+  | .recordAck _ _, _ => (false, true)
+  | .advance _, _ => (true, true)
+  | .requestResume _ _ _, .resumeOk _ => (true, true)
+  | _, _ => (false, false)
+
+/-- the reason string the watchdog passes to `cancel` ("transfer idle"), as a reason token -/
+def idleReason : Nat := 1000000007
+
+/-- What the watchdog does with one transfer of its snapshot at one tick: `is_cancelled()` → skip; otherwise
+read the time stamps and, if the environment says the transfer is idle, call `cancel("transfer idle")`.
+These are separate lock regions of `TransferControl`, so the visit contributes this program (reads omitted:
+they change nothing) to the interleaving. `sawCancelled` is what its `is_cancelled()` read returned. -/
+def watchdogVisit (sawCancelled idle : Bool) : List Op :=
+  if sawCancelled then [] else if idle then [.cancel idleReason] else []
 
 /-- A history: the ops in the order the mutex serialised them. -/
 def run (f : Facts) (m : OvMode) (s : State) : List Op → State
